@@ -242,26 +242,64 @@ PROPS['C18'] = dict(
 
 STORE_FACTS = ['skeleton.storage.*', 'panics.storage.*', 'skeleton.engine.Evaluate*', 'storage.callers.*', 'storage.file_writers',
                'layout.WALEntry.*', 'layout.fileStore.*'] + STORAGE_CONSTS
+STORE_NOTE = ('Trusted: Lean kernel (axioms propext, Classical.choice, Quot.sound only), the hand-written models, the harness and hooks, '
+              'the OS file system behaving as a byte array per file with fsync making earlier writes durable. Theorems are about the models; '
+              'the code is covered through the correspondence and the judge, which are bounded.')
 PROPS['C01'] = dict(lean=['Mkdb.Props.C01'], facts=STORE_FACTS, runs=[dict(cmd='db', proto='db', args=['c01'])],
     sig_filter=r'db:(contents-differ:live|schema-differs:live|row-ids-not-increasing:live|row-id:live|panic:live|hang:live|select-failed:live|valid-statement-refused:live)',
-    claim='pending', note='pending', rule='')
+    
+    claim='Proof (partial): C01_step / C01_history - for every history of tree operations of any length (inserts with whatever leaf splits, internal splits at any depth and root growths they cause, value changes, deletions) what a scan of the tree sees is exactly the plain list the history implies: accepted inserts appended in order, changed values in place, tombstones set; C01_select_sees_live_rows; C01_ids_strictly_increasing - row ids strictly increasing hence unique; C01_no_resurrection - a deleted row stays deleted through every later operation. The theorems are about the levels model of storage/btree.go (Mkdb.Tree), which every insert of the heap model is cross-checked against. Not covered by a theorem: that a statement is the sequence of tree operations assumed (shared row-id counter, catalog rows, root re-pointing), the row codec (C08) and the page codec (C12). Tie: random DDL/DML histories over up to 12 tables through RelationService on real files, with page flushes and reloads at random points and histories deep enough for internal-node splits; after every statement the outcome, at intervals SELECT * of every table, the catalog, and the complete page heap are compared with the heap model (page by page: cells, flags, sibling links, LSNs, dirty bits, header), and the judge compares every table with the in-memory spec of the statements (Spec/Tables.lean) and checks row ids.',
+    note=STORE_NOTE,
+    rule='1 deep history (1400 rows in one table, ~310 leaves, internal split; thorough also 2900 rows) + 12 (thorough 96) histories of 5-60 statements (thorough: every 8th has 260 statements over up to 12 tables of up to 11 columns), multi-row inserts of 1-12 rows, values up to the 400-byte row limit, 12% updates, 18% deletes, flush 10% / reload 5% per statement. Non-trivial: a history in which some table split a leaf; distinct by operation text.',
+    assumptions=['row ids only ever arrive in ascending order (they come from the shared counter or from log replay)'],
+    trusted_base=['models Mkdb/Model/Tree.lean (levels), Store.lean (heap), Engine.lean; cross-check Store.ghostAgrees; hooks VerifDump/VerifScan/VerifTables'])
 PROPS['C02'] = dict(lean=['Mkdb.Props.C02'], facts=STORE_FACTS, runs=[dict(cmd='db', proto='db', args=['c02']), dict(cmd='wal', proto='wal')],
     sig_filter=r'wal:.*|db:(contents-differ:after-recovery|recovery-failed:.*|valid-statement-refused:after-recovery|row-id:after-recovery|row-ids-not-increasing:after-recovery|schema-differs:after-recovery|panic:after-recovery|hang:after-recovery|select-failed:after-recovery)',
-    claim='pending', note='pending', rule='')
+    
+    claim='Proof (partial): C02_recovery_reconstructs / C02_recovery_idempotent / C02_clean_shutdown - for every log of page-local records with increasing LSNs, every initial state and EVERY placement of page flushes (each page of the data file is the cached page as of an arbitrary earlier moment), the redo rule of WALBatch.replay (skip a record whose LSN is not newer than the page) reproduces exactly the state the acknowledged statements had built, and replaying again changes nothing; C02_log_roundtrip - the bytes wal.flush appends are read back by wal.read as exactly the records written (byte-level model). Not covered by a theorem: records that touch several pages (tree inserts that split, catalog re-pointing after a root move, page allocation) and the header counters (row id, LSN) - for those the concrete model Mkdb.Engine.recover (same LSN rule, same tree code as C01) is compared with the implementation. Tie: per case a random DDL/DML history through RelationService with the flush timer replaced by explicit flushes at random points (never / sometimes / always), a crash (cache dropped, files kept) after random statements, the real InitStorage in a child process, optionally a second recovery, then SELECT * of every table, heap dump and further statements; the model must produce the same heap, log and outcomes, the judge compares every table with the in-memory spec of the acknowledged statements and checks row ids stay unique and increasing.',
+    note='Trusted: Lean kernel (axioms propext, Classical.choice, Quot.sound only), the hand-written models, the harness and hooks, the OS file system behaving as a byte array per file with fsync making earlier writes durable. Theorems are about the models; the code is covered through the correspondence and the judge, which are bounded.',
+    rule='12 (thorough 96) histories of 5-40 statements over up to 4 tables with flush probability in {0,15,40,100}%, crash probability in {10,25,50}% per statement, failing statements mixed in; wal codec: 40 (thorough 320) record lists, every cut position of short logs, random cuts and damaged bytes otherwise. Non-trivial: a history with at least one crash after an unflushed change; distinct by operation text.',
+    assumptions=['a crash loses the page cache and nothing else: log records are fsynced before a statement returns (forceSync) and the data file is only written by flushPages', 'InitStorage runs alone (no concurrent session)'],
+    trusted_base=['models Mkdb/Model/Store.lean, Engine.lean (recover), Wal.lean, Redo.lean; hooks VerifFlush/VerifAbandon/VerifDump/VerifWal*'])
 PROPS['C11'] = dict(lean=['Mkdb.Props.C11'], facts=STORE_FACTS, runs=[dict(cmd='db', proto='db', args=['c01'], corpus='C11')],
-    sig_filter=r'db:shape:.*', claim='pending', note='pending', rule='')
+    sig_filter=r'db:shape:.*', 
+    claim="Proof: C11_every_history - after any history, of any length, of insertions with ascending keys, value changes and deletions starting from a freshly created table, the tree satisfies the invariant Inv of Spec/TreeInv.lean, which is the C11 statement clause by clause: no node over capacity, keys strictly ascending within and across leaves, every separator the lowest key of the subtree to its right, every level's child pointers exactly the nodes of the level below in order (all leaves at one depth, one parent per node), no page twice and all below the allocation frontier, the doubly linked leaf chain equal to the leaves in tree order; C11_insert_preserves covers leaf split, separator propagation, internal splits at every depth and root growth by induction over the levels; C11_lookup_finds_every_key - in a well-formed tree every stored key is found by findCell's routing from the root. The theorems are about the levels model (Mkdb.Tree.insertAppend); the tie: every insert the heap model performs - and the heap model is compared page for page with the implementation - is re-done by insertAppend on the tree read out of the heap and every page, the root and the allocation frontier are compared (Store.ghostAgrees; a disagreement breaks the correspondence); independently the judge walks the implementation's own page graph from every table root with the executable shape checker Spec/Shape.lean (both chain directions, depth, bounds, reachability, lookup of every key).",
+    note=STORE_NOTE,
+    rule='as C01 (same histories): every insert in them is cross-checked against the levels model (about 1500-9000 inserts per quick run, including the first internal-node split in the deep history), the shape checker runs on every heap dump (every 7 statements and at the end). Non-trivial: a history with a leaf split; distinct by operation text. Internal splits at depth >= 2 need more than 190000 rows and are covered by the theorem only.',
+    assumptions=['keys arrive in ascending order per tree (engine: shared counter; replay: logged ids)'],
+    trusted_base=['models Mkdb/Model/Tree.lean, Store.lean; Spec/TreeInv.lean (invariant), Spec/Shape.lean (executable checker on dumps)'])
 PROPS['C14'] = dict(lean=['Mkdb.Props.C14'], facts=STORE_FACTS, runs=[dict(cmd='db', proto='db', args=['c14'])],
     sig_filter=r'db:(failed-statement-changed-table|failed-statement-applied-row-prefix|failed-create-left-table|invalid-statement-accepted)', claim='pending', note='pending', rule='')
 
-PROPS['C03'] = dict(lean=['Mkdb.Props.C02'], facts=STORE_FACTS, runs=[dict(cmd='db', proto='db', args=['c03']), dict(cmd='wal', proto='wal')],
-    sig_filter=r'(db:(image-.*|panic:.*|hang:.*)|wal:.*)', claim='pending', note='pending', rule='')
-PROPS['C04'] = dict(lean=['Mkdb.Props.C02'], facts=STORE_FACTS, runs=[dict(cmd='db', proto='db', args=['c04'], timeout=3000)],
-    sig_filter=r'db:(fimage-.*)', claim='pending', note='pending', rule='')
+PROPS['C03'] = dict(lean=['Mkdb.Props.C03'], facts=STORE_FACTS, runs=[dict(cmd='db', proto='db', args=['c03']), dict(cmd='wal', proto='wal')],
+    sig_filter=r'(db:(image-.*|panic:.*|hang:.*)|wal:.*)',
+    claim='Proof (partial): C03_cut_is_prefix - for every list of records and EVERY byte position at which the log file is cut, wal.read (byte-level model) returns exactly the records whose frames lie completely inside the cut: a maximal prefix, never half a record, never an error, flagged torn exactly when the cut is inside a frame; C03_append_after_cut - after the reader truncated the torn tail, later appends are read back right behind the surviving prefix; C03_roundtrip. Not covered by a theorem: that replaying a record prefix yields the table state "before the statement plus a prefix of its row operations" (records are one per row operation in statement order, a root move adds a catalog record) - that is the concrete recovery model, compared with the implementation. Tie: crash images of data/ taken by a hook immediately before every length write, body write and fsync of the log during multi-row INSERT/UPDATE/DELETE statements (log cut at the last write and at the last fsync), real InitStorage in a child process on each image, SELECT * of every table, then probe statements; the judge requires recovery to succeed, every table to equal one of the row-prefix states of the spec, and the probes to behave as on an uncrashed database in that state; the wal run compares encoder, reader and file truncation byte for byte with the model.',
+    note='Trusted: Lean kernel (axioms propext, Classical.choice, Quot.sound only), the hand-written models, the harness and hooks, the OS file system behaving as a byte array per file with fsync making earlier writes durable. Theorems are about the models; the code is covered through the correspondence and the judge, which are bounded.',
+    rule='6 (thorough 48) histories, each with crash images at every log write/sync of 2-4 multi-row statements (typically 20-60 images per history) and 3 probe statements per image; wal: as C02. Non-trivial: an image whose log ends inside the statement; distinct by image operation text.',
+    assumptions=['a write(2) on the log may be torn at any byte; fsync makes earlier writes durable', 'the data file is not written while the statement runs (C13)'],
+    trusted_base=['models Mkdb/Model/Wal.lean, Store.lean, Engine.lean; hooks verifPoint(wal.len|wal.body|wal.sync), VerifWalParseFile'])
+PROPS['C04'] = dict(lean=['Mkdb.Props.C04'], facts=STORE_FACTS, runs=[dict(cmd='db', proto='db', args=['c04'], timeout=3000)],
+    sig_filter=r'db:(fimage-.*)',
+    claim='Proof (partial): C04_torn_flush_recovers - the data files a crash inside flushPages can leave are those in which every page is the cached page as of some earlier moment; for every log of page-local records, every such file and every flush history before it, replay reproduces the acknowledged state; C04_log_cut with C04_write_ahead_needed - the write-ahead rule (no page newer than the log) is sufficient and necessary. Not covered: flushes torn between the pages of a split or before the header write that persists the allocation frontier - there the implementation does lose data (KNOWN FINDING db:fimage-(loss|recovery-failed):*:alloc1, see KNOWN_FINDINGS.txt) - and a second crash inside the flush that ends recovery. Tie: for flushes triggered explicitly, by CREATE TABLE and by shutdown, a hook copies data/ immediately before every page write and before the header write, in the page order the Go map iteration produced; each image is recovered by the real InitStorage in a child process and every table is compared with the spec of the acknowledged statements; the model reproduces each torn image from the observed write order and must recover to the same heap.',
+    note='Trusted: Lean kernel (axioms propext, Classical.choice, Quot.sound only), the hand-written models, the harness and hooks, the OS file system behaving as a byte array per file with fsync making earlier writes durable. Theorems are about the models; the code is covered through the correspondence and the judge, which are bounded.',
+    rule='8 (thorough 64) histories with 2-5 instrumented flushes each, one image per page write and per header write (10-40 images per flush). Non-trivial: an image with at least one but not all pages written; distinct by image operation text. Images are classified by flush kind and by whether pages were allocated since the last header write (alloc0/alloc1).',
+    assumptions=['page writes are atomic (4096-byte WriteAt) and ordered as issued; the header write is atomic'],
+    trusted_base=['models Mkdb/Model/Redo.lean, Store.lean (tornFlush), Engine.lean; hooks verifPoint(page.write|hdr.write)'])
 
-PROPS['C16'] = dict(lean=['Mkdb.Props.C02'], facts=STORE_FACTS + ['lru.capacity', 'skeleton.storage.LRUCache.*'], runs=[dict(cmd='db', proto='db', args=['c16'])],
-    sig_filter=r'db:(cache-size-dependent|contents-differ:live|panic:live|hang:live|select-failed:live)', claim='pending', note='pending', rule='', shrink=False)
+PROPS['C16'] = dict(lean=['Mkdb.Props.C16', 'Mkdb.Props.C15'], facts=STORE_FACTS + ['lru.capacity', 'skeleton.storage.LRUCache.*'], runs=[dict(cmd='db', proto='db', args=['c16'])],
+    sig_filter=r'db:(cache-size-dependent|contents-differ:live|panic:live|hang:live|select-failed:live)',
+    claim='Proof (partial): C16_capacity_independent / C16_equals_cacheless - for every pair of capacities, every initial cache content meeting the invariant (distinct resident keys, within capacity, a clean resident page equals its disk image) and every sequence of page reads, page changes and flushes that neither cache refuses, all reads return the same contents as with no cache at all and the final logical contents agree; C16_refusal_only_when_full_of_dirty - refusal happens exactly on a miss with the cache full of dirty pages (the precondition of the property); C16_flush_makes_durable; C16_policy_is_the_lru_model - the recency/eviction behaviour is that of the LRU model of C15, which is compared with storage/lru.go on every run. Not covered by a theorem: Go pointer aliasing (a page object evicted while a caller still holds and later changes it), which the model cannot exhibit. Tie: the same random workload is run through RelationService with the cache replaced by small ones (capacities from a few times the tree height up) and with the default; statement outcomes, SELECT * of every table and the heap after a final flush are compared (runs that hit ErrCacheFull are outside the precondition and are skipped from the point of refusal).',
+    note='Trusted: Lean kernel (axioms propext, Classical.choice, Quot.sound only), the hand-written models, the harness and hooks, the OS file system behaving as a byte array per file with fsync making earlier writes durable. Theorems are about the models; the code is covered through the correspondence and the judge, which are bounded.',
+    rule='5 (thorough 40) workloads of 30-120 statements, each re-run at 4-6 capacities between 6 and 64 pages and at 10000; thorough adds workloads with trees of depth 3. Non-trivial: a run in which pages were evicted and re-read (resident set smaller than the page count); distinct by workload text and capacity.',
+    assumptions=['page objects are not used after the statement that fetched them returns'],
+    trusted_base=['models Mkdb/Model/PageCache.lean, LRU.lean; hook VerifOpenRelation(cacheCap)'], shrink=False)
 PROPS['C17'] = dict(lean=['Mkdb.Props.C17'], facts=['skeleton.engine.Session.*', 'panics.engine.Session.*', 'skeleton.storage.OpenRelation', 'skeleton.storage.CreateDB', 'skeleton.storage.newFileStore', 'skeleton.storage.fileStore.close'],
-    runs=[dict(cmd='sess', proto='sess')], sig_filter=r'sess:.*', claim='pending', note='pending', rule='')
+    runs=[dict(cmd='sess', proto='sess')], sig_filter=r'sess:.*',
+    claim='Proof (partial by nature for the schedule quantifier): C17_frame - every DDL/DML/SELECT/SHOW statement changes at most the selected database, for every session state and statement; C17_no_database_selected; C17_create_existing, C17_use_missing - errors that leave the session exactly as it was (the previously selected database stays selected and open); C17_create_new; C17_use_current - re-selecting the current database changes nothing; C17_use_other - only the previously selected database is touched (closed); C17_names_are_the_created_ones - after any history the databases are exactly those whose CREATE DATABASE returned ok; C17_show - SHOW DATABASES returns a permutation of them. Not covered by a theorem: that closing (flush) and restart (recovery) preserve contents - that is C02/C04 and the correspondence here - and the real flush timer of an abandoned relation service. Tie: random sessions over 2-4 databases through engine.Session.ExecQuery with real pauses longer than the flush interval and restarts (close, InitStorage, new session); outputs and per-database SELECT * are compared with the model, and the judge checks isolation against a per-database in-memory spec.',
+    note='Trusted: Lean kernel (axioms propext, Classical.choice, Quot.sound only), the hand-written models, the harness and hooks, the OS file system behaving as a byte array per file with fsync making earlier writes durable. Theorems are about the models; the code is covered through the correspondence and the judge, which are bounded.',
+    rule='sessions of 20-80 statements; CREATE DATABASE / USE (existing, missing, current, mixed case) / SHOW DATABASES interleaved with DDL/DML; pauses of 120-250 ms; 0-3 restarts. Non-trivial: a session that switches databases at least twice with data in both; distinct by session text.',
+    assumptions=['one session at a time (the engine has no concurrent sessions)'],
+    trusted_base=['model Mkdb/Model/Session.lean over Engine.lean/Store.lean'])
 LOCK_FACTS = ['skeleton.engine.Evaluate*', 'skeleton.storage.fileStore.flushPages', 'skeleton.storage.newFileStore', 'skeleton.storage.RelationService.CreateTable',
               'skeleton.storage.RelationService.StartTxn', 'skeleton.storage.RelationService.EndTxn', 'storage.file_writers', 'storage.callers.*', 'skeleton.storage.wal.flush',
               'const.storage.pageFlushInterval']
